@@ -84,12 +84,13 @@ ScalarSetBad(s) == \E why \in {"canon-ge-l", "canon-len", "uniform-len", "clamp-
     /\ out' = "err" /\ UNCHANGED <<pt, sc>>
     /\ hist' = Rec([op |-> "Scalar.Set.bad", r |-> s, why |-> why, outcome |-> "err"])
 \* export the coordinates of a, perturb them, import into r
-ExtRoundTrip(r, a) == \E how \in {"same", "rescaled", "negT", "zeroZ", "allzero", "garbage", "swapXY"} :
+ExtRoundTrip(r, a) == \E how \in {"same", "rescaled", "incT", "zeroZ", "allzero", "garbage", "swapXY"} :
     IF pt[a] = Uninit
     THEN /\ out' = "panic" /\ UNCHANGED <<pt, sc>>
          /\ hist' = Rec([op |-> "Ext", r |-> r, a |-> <<a>>, how |-> how, outcome |-> "panic"])
     ELSE LET accepted == how \in {"same", "rescaled"} \/ (how = "allzero" /\ BUG_SetExt_NoZCheck)
-                         \/ (how = "negT" /\ pt[a] # Degen /\ FMul(pt[a].x, pt[a].y) = FZero)     \* T = 0: -T = T
+                         \* ("incT": T + 1 is never consistent with XY = ZT since Z # 0.  Perturbations whose acceptance depends on
+                         \*  the VALUE of the point, like negating T, are left to the suites: derived toy values do not map to real ones)
                          \/ (how = "swapXY" /\ pt[a] # Degen /\ OnCurve(Pt(pt[a].y, pt[a].x)))
              val == IF how = "allzero" THEN Degen
                     ELSE IF how = "swapXY" THEN Pt(pt[a].y, pt[a].x) ELSE pt[a]
